@@ -42,7 +42,8 @@ def main():
     try:
         import gen_tables
 
-        gen_tables.main()
+        for f in gen_tables.main():
+            rep.proof_broken.append({"table_generation_failed": f["generator"], "error": f["error"]})
     except Exception:
         traceback.print_exc()
         print("gen_tables failed", file=sys.stderr)
